@@ -67,11 +67,22 @@ def compare(root, pp, cfg, api, out, armed, stream='walk'):
                 res = G.glob(text, flags=fl, root_dir=root)
             elif api == 1:
                 res = list(G.iglob(text, flags=fl, root_dir=root))
-            else:
+            elif api == 2:
                 # the pattern as the second element of a list whose first element is an absolute pattern that matches nothing:
                 # what a pattern denotes does not depend on the patterns that stand before it
                 res = G.glob([root + '/zz_no_such_entry', text], flags=fl, root_dir=root)
+            else:
+                # ... nor on a pattern before it that lists the same directories in another way (`*`, then the pattern): the
+                # result is judged against the union of the two reference results
+                res = G.glob(['*', text], flags=fl, root_dir=root)
         ref, undecided = W.ref_glob(model, pp, FC.walker_opts(cfg))
+        if api == 3:
+            ref = dict(ref)
+            ref2, und2 = W.ref_glob(model, A.PathPat(False, ((A.STAR,),), False, 1), FC.walker_opts(cfg))
+            undecided = undecided or und2
+            for p_, v_ in ref2.items():
+                if ref.get(p_) != R.MUST:
+                    ref[p_] = v_
     except util.HarnessBudget:
         out.stats['budget_skipped'] += 1
         return None
@@ -87,6 +98,8 @@ def compare(root, pp, cfg, api, out, armed, stream='walk'):
     for p in sorted(got - may):
         problems.append((p, True, R.MUSTNOT))
     for p, impl, v in problems:
+        if api == 3 and impl and R.path_verdict(A.PathPat(False, ((A.STAR,),), False, 1), W.strip_sep(p), **kw) != R.MUSTNOT:
+            continue          # brought in by the `*` that stands first, and the language allows it there
         if undecided and impl:
             # MATCHBASE / leading globstar zone: only judged through the language reference
             if R.path_verdict(pp, W.strip_sep(p), **kw) != R.MUSTNOT:
@@ -111,7 +124,7 @@ def run_walk(desc):
 
     @seed(desc['seed'])
     @util.hyp_settings(desc['n'], shrink=False)
-    @given(FC.st_case(), FC.st_cfg(CFG_KEYS), st.integers(0, 2))
+    @given(FC.st_case(), FC.st_cfg(CFG_KEYS), st.integers(0, 3))
     def test(sp, cfg, api):
         spec, pp = sp
         follow = FC.follows_links(cfg)
@@ -159,7 +172,7 @@ def run_literal(desc):
                             continue
                         seen.add(key)
                         pp = A.PathPat(False, segs, trail, 1)
-                        r = compare(root, pp, cfg, (0, 0, 2)[len(seen) % 3], out, armed, stream='literal')
+                        r = compare(root, pp, cfg, (0, 3, 2, 0)[len(seen) % 4], out, armed, stream='literal')
                         if r is not None and r[0] and len(segs) >= 2:
                             out.nontrivial((desc['tree'], A.render_path(pp), tuple(sorted(cfg))))
         for i, (sz, b, c) in enumerate(out.violations):
